@@ -253,3 +253,22 @@ def forward_taint(body, seeds, through_calls=True):
                     tainted.add(t.dest.local)
                     changed = True
     return tainted
+
+
+def base_local(body, defs, operand, max_depth=10):
+    """the local an operand ultimately names through moves/copies/borrows/reborrows only (no calls)"""
+    if operand.place is None:
+        return None
+    loc = operand.place.local
+    for _ in range(max_depth):
+        ds = defs.of(loc)
+        if len(ds) != 1 or ds[0][0] != 'assign':
+            return loc
+        rv = ds[0][3].rv
+        if rv.kind == 'use' and rv.ops[0].place is not None:
+            loc = rv.ops[0].place.local
+        elif rv.kind in ('ref', 'rawptr'):
+            loc = rv.place.local
+        else:
+            return loc
+    return loc
